@@ -220,6 +220,7 @@ class ModelSide:
         i = 0
         opts = list(opts)
         audit = 0
+        bstart, bcount = 0, 0
         while i < len(opts):
             o = opts[i]
             if o == '-d':
@@ -236,6 +237,10 @@ class ModelSide:
                 fe = 1; i += 1
             elif o == '-a':
                 audit = 1; i += 1
+            elif o == '-S':
+                bstart = int(opts[i + 1]); i += 2
+            elif o == '-B':
+                bcount = int(opts[i + 1]); i += 2
             else:
                 i += 1
         fl = ['FL']
@@ -288,7 +293,12 @@ class ModelSide:
                 path = os.path.join(a.root, d, os.fsdecode(dr))
                 objs += [str(p), 'D', str(br.name(d, dr)), '0', '1' if (os.path.isdir(path)) else '0', str(excl(dr, True))]
         self._objs = objs
-        pos = ['POS', str(st['blockmax'])] + list(map(str, range(st['blockmax'])))
+        # state_check: blocks blockstart .. min(blockmax, blockstart + blockcount) - 1 (-S / -B); a start beyond the end is fatal
+        bmax = st['blockmax']
+        if bcount != 0 and bstart + bcount < bmax:
+            bmax = bstart + bcount
+        rng_ = list(range(min(bstart, bmax), bmax))
+        pos = ['POS', str(len(rng_))] + list(map(str, rng_))
         head = ['run', cmd, str(bs), str(a.np), '1' if self.hs != 16 else '0', str(NOW), str(audit), str(fe), str(fe), str(audit)]
         return {'head': head, 'mid': h_toks + pz + tr + c_toks + p_toks + fs_toks + fl + po, 'pos': pos, 'cmd': cmd, 'opts': opts, 'audit': audit}
 
